@@ -103,6 +103,33 @@ def handle : DrvHandler := fun op args =>
         ("error", .bool c.outcome.error),
         ("delay", match c.outcome.delay with | some d => Json.num (JsonNumber.fromInt d) | none => .null),
         ("subrefs", .arr (c.outcome.subrefs.map Json.str).toArray)]))
+  | "C02.cycle2", [j] => do
+      let owned ← jStrList? (← jField? j "owned")
+      let selected ← jStrList? (← jField? j "selected")
+      let reason ← jStr? (← jField? j "reason")
+      let lifecycle ← jStr? (← jField? j "lifecycle") >>= lifecycleOf?
+      let limitsL ← (← objPairs? (← jField? j "limits")).mapM (fun (k, v) => do pure (k, ← limitsOf? v))
+      let childrenL ← (← objPairs? (← jField? j "children")).mapM (fun (k, v) => do pure (k, ← jStrList? v))
+      let pL ← (← objPairs? (← jField? j "P")).filterMapM (fun (k, v) =>
+        match v with
+        | .null => some none
+        | v => do let r ← recOf? v; pure (some (k, r)))
+      let oL ← (← objPairs? (← jField? j "outcomes")).mapM (fun (k, v) => do pure (k, ← outcomeOf? v))
+      let now ← jInt? (← jField? j "now")
+      let univ ← jStrList? (← jField? j "universe")
+      let cfg : Cfg := { owned, selected, reason, lifecycle,
+                         limits := fun i => (lookupD limitsL i).getD { timeout := none, retries := none } }
+      let sub : SubReg := { children := fun i => (lookupD childrenL i).getD [],
+                            limits := fun _ => { timeout := none, retries := none } }
+      let P : Store := lookupD pL
+      let missing : Outcome := { final := false, delay := some (-1), error := true, subrefs := ["<no-outcome>"] }
+      let exec : Id → Nat → Outcome := fun i _ => (lookupD oL i).getD missing
+      let c := cycle2 cfg sub P now exec
+      some (ok (Json.mkObj [
+        ("invoked", .arr (c.invoked.map (fun (i, n) => Json.arr #[.str i, .num (JsonNumber.fromNat n)])).toArray),
+        ("subInvoked", .arr (c.subInvoked.map (fun (i, n) => Json.arr #[.str i, .num (JsonNumber.fromNat n)])).toArray),
+        ("P", Json.mkObj (univ.map (fun i => (i, match c.P' i with | some r => recJson r | none => .null)))),
+        ("closed", .bool c.closed)]))
   | _, _ => none
 
 end Kopf.Drv.C02
